@@ -662,6 +662,24 @@ func (w *world) checkAll(when string) bool {
 			}
 		}
 	}
+	// the catalog tables draw their row ids from the same database-wide counter
+	for _, name := range []string{"sys_pages", "sys_schema"} {
+		rows, _, err := w.selectAll(name)
+		if err != nil {
+			w.failErr("select-failed", when+": SELECT * FROM "+name, err)
+			return false
+		}
+		for _, r := range rows {
+			if other, dup := allIDs[r.RowID]; dup {
+				w.c.Fail("row-id-reused", "%s: row id %d is used both in %s and in %s", when, r.RowID, other, name)
+				return false
+			}
+			allIDs[r.RowID] = name
+			if r.RowID > maxSeen {
+				maxSeen = r.RowID
+			}
+		}
+	}
 	w.model.MaxID = maxSeen
 	return w.checkCatalog(when)
 }
